@@ -53,6 +53,7 @@ type recDebugger struct {
 	traces    map[uint64][]string
 	litVisits map[int]int // debugger visits of literal nodes per line
 	litEvals  map[int]int // evaluations of literal nodes per line (noted by c15LitRuntime)
+	off       bool        // life-cycle cases: the debugger is detached at the moment
 }
 
 // c15IsLiteral: leaf nodes whose runtime nobody type-asserts (safe to wrap).
@@ -74,14 +75,16 @@ type c15LitRuntime struct {
 
 func (r *c15LitRuntime) Eval(vs parser.Scope, is map[string]interface{}, tid uint64) (interface{}, error) {
 	r.rec.mu.Lock()
-	r.rec.litEvals[r.line]++
+	if !r.rec.off {
+		r.rec.litEvals[r.line]++
+	}
 	r.rec.mu.Unlock()
 	return r.Runtime.Eval(vs, is, tid)
 }
 
 func c15WrapLiterals(n *parser.ASTNode, rec *recDebugger) {
 	if c15IsLiteral(n) {
-		n.Runtime = &c15LitRuntime{n.Runtime, n.Token.Lline, rec}
+		n.Runtime = &c15LitRuntime{n.Runtime, c15Pos(n), rec}
 	}
 	for _, c := range n.Children {
 		c15WrapLiterals(c, rec)
@@ -109,16 +112,30 @@ func newRecDebugger(d util.ECALDebugger) *recDebugger {
 
 func (d *recDebugger) note(tid uint64, s string) {
 	d.mu.Lock()
-	d.traces[tid] = append(d.traces[tid], s)
+	if !d.off {
+		d.traces[tid] = append(d.traces[tid], s)
+	}
 	d.mu.Unlock()
+}
+
+// setOn: life-cycle cases — events and literal evaluations only count while the debugger is
+// (meant to be) attached.
+func (d *recDebugger) setOn(on bool) {
+	d.mu.Lock()
+	d.off = !on
+	d.mu.Unlock()
+}
+
+func c15Pos(node *parser.ASTNode) int {
+	return c15SrcOffset(node.Token.Lsource) + node.Token.Lline
 }
 
 func (d *recDebugger) VisitState(node *parser.ASTNode, vs parser.Scope, tid uint64) util.TraceableRuntimeError {
 	if node.Token != nil {
-		d.note(tid, "v"+strconv.Itoa(node.Token.Lline))
+		d.note(tid, "v"+strconv.Itoa(c15Pos(node)))
 		if c15IsLiteral(node) {
 			d.mu.Lock()
-			d.litVisits[node.Token.Lline]++
+			d.litVisits[c15Pos(node)]++
 			d.mu.Unlock()
 		}
 	}
@@ -126,15 +143,15 @@ func (d *recDebugger) VisitState(node *parser.ASTNode, vs parser.Scope, tid uint
 }
 
 func (d *recDebugger) VisitStepInState(node *parser.ASTNode, vs parser.Scope, tid uint64) util.TraceableRuntimeError {
-	d.note(tid, "e"+strconv.Itoa(node.Token.Lline))
+	d.note(tid, "e"+strconv.Itoa(c15Pos(node)))
 	return d.ECALDebugger.VisitStepInState(node, vs, tid)
 }
 
 func (d *recDebugger) VisitStepOutState(node *parser.ASTNode, vs parser.Scope, tid uint64, soErr error) util.TraceableRuntimeError {
 	if soErr != nil {
-		d.note(tid, "X"+strconv.Itoa(node.Token.Lline))
+		d.note(tid, "X"+strconv.Itoa(c15Pos(node)))
 	} else {
-		d.note(tid, "x"+strconv.Itoa(node.Token.Lline))
+		d.note(tid, "x"+strconv.Itoa(c15Pos(node)))
 	}
 	return d.ECALDebugger.VisitStepOutState(node, vs, tid, soErr)
 }
@@ -366,25 +383,43 @@ type c15Run struct {
 	timing  string
 	seed    uint64
 	payload string
+	life    string // life-cycle mode (L cases): src = library, mainSrc = main program
+	mainSrc string
 }
 
 const c15Source = "t"
 
+// positions are numbers: <source index>*1000 + line; sources: 0 = "t", 1 = "lib", 2 = "main"
+var c15Sources = []string{c15Source, "lib", "main"}
+
+func c15SrcOffset(name string) int {
+	for i, s := range c15Sources {
+		if s == name {
+			return i * 1000
+		}
+	}
+	return 9000
+}
+
 func c15ApplyOp(dbg util.ECALDebugger, op string) {
 	n := op[1:]
+	if op[0] == 'b' {
+		dbg.BreakOnStart(n != "0")
+		return
+	}
+	num, _ := strconv.Atoi(n)
+	src, line := c15Sources[(num/1000)%len(c15Sources)], strconv.Itoa(num%1000)
 	switch op[0] {
 	case 's':
-		dbg.HandleInput("break " + c15Source + ":" + n)
+		dbg.HandleInput("break " + src + ":" + line)
 	case 'd':
-		dbg.HandleInput("disablebreak " + c15Source + ":" + n)
+		dbg.HandleInput("disablebreak " + src + ":" + line)
 	case 'r':
-		if n == "0" {
-			dbg.HandleInput("rmbreak " + c15Source)
+		if num%1000 == 0 {
+			dbg.HandleInput("rmbreak " + src)
 		} else {
-			dbg.HandleInput("rmbreak " + c15Source + ":" + n)
+			dbg.HandleInput("rmbreak " + src + ":" + line)
 		}
-	case 'b':
-		dbg.BreakOnStart(n != "0")
 	}
 }
 
@@ -408,21 +443,29 @@ func c15Debugged(c *c15Run, kill bool) (threads []*c15Thread, lg *memLog, rec *r
 	gvs := newGlobalScope()
 	dbg := interpreter.NewECALDebugger(gvs)
 	rec = newRecDebugger(dbg)
-	erp.Debugger = rec
+	if c.life == "" {
+		erp.Debugger = rec
+	} else {
+		rec.off = true
+	}
 	dbg.BreakOnStart(c.bos)
 	dbg.BreakOnError(c.boe)
 	for _, op := range c.bpops {
 		c15ApplyOp(dbg, op)
 	}
-	ast, err := parser.ParseWithRuntime(c15Source, c.src, erp)
-	if err == nil {
-		err = ast.Runtime.Validate()
+	var ast *parser.ASTNode
+	var err error
+	if c.life == "" {
+		ast, err = parser.ParseWithRuntime(c15Source, c.src, erp)
+		if err == nil {
+			err = ast.Runtime.Validate()
+		}
+		if err != nil {
+			t := &c15Thread{err: err, normal: true, vs: gvs}
+			return []*c15Thread{t}, lg, rec, false
+		}
+		c15WrapLiterals(ast, rec)
 	}
-	if err != nil {
-		t := &c15Thread{err: err, normal: true, vs: gvs}
-		return []*c15Thread{t}, lg, rec, false
-	}
-	c15WrapLiterals(ast, rec)
 	for i := 0; i < c.n; i++ {
 		vs := gvs
 		if i > 0 {
@@ -441,7 +484,14 @@ func c15Debugged(c *c15Run, kill bool) (threads []*c15Thread, lg *memLog, rec *r
 					t.normal = true
 				}
 			}()
-			t.res, t.err = ast.Runtime.Eval(t.vs, make(map[string]interface{}), t.tid)
+			if c.life != "" {
+				t.res, t.err = c15Life(c.life, erp, c.src, c.mainSrc, t.vs, t.tid,
+					func() { erp.Debugger = rec; rec.setOn(true) },
+					func() { erp.Debugger = nil; rec.setOn(false) },
+					func(a *parser.ASTNode) { c15WrapLiterals(a, rec) })
+			} else {
+				t.res, t.err = ast.Runtime.Eval(t.vs, make(map[string]interface{}), t.tid)
+			}
 			t.normal = true
 		}(t)
 	}
@@ -575,6 +625,9 @@ func c15NoteSuspension(rec *recDebugger, t *c15Thread, id string) {
 		if nd, ok := m["node"].(map[string]interface{}); ok {
 			if l, ok := nd["line"].(int); ok {
 				line = l
+				if src, ok := nd["source"].(string); ok {
+					line += c15SrcOffset(src)
+				}
 			}
 		}
 	}
@@ -621,6 +674,124 @@ func c15Plain(src string) (string, []string, []string) {
 		ast2.Runtime.Eval(newGlobalScope(), make(map[string]interface{}), tid)
 	}()
 	return out, logs, rec.trace(tid)
+}
+
+// c15Life loads code in several steps and attaches the debugger at the point the mode says.
+// Phases: P1 = evaluate the library, P2 = evaluate the main program, P3 = evaluate the main
+// program's AST a second time.
+//
+//	A0: attach | parse lib, main | P1 P2
+//	A1: parse lib | P1 | attach | parse main | P2
+//	A2: parse lib, main | P1 P2 | attach | P3
+//	A3: attach | parse lib, main | P1 | detach | P2 | attach | P3
+//	A4: parse lib, main | attach | P1 P2
+//
+// The result is the list of the phases' results.
+func c15Life(mode string, erp *interpreter.ECALRuntimeProvider, lib, main string, vs parser.Scope, tid uint64,
+	attach, detach func(), wrap func(*parser.ASTNode)) (interface{}, error) {
+	var libAst, mainAst *parser.ASTNode
+	var results []interface{}
+	var firstErr error
+	load := func(name, src string) *parser.ASTNode {
+		a, err := parser.ParseWithRuntime(name, src, erp)
+		if err == nil {
+			err = a.Runtime.Validate()
+		}
+		if err != nil {
+			if firstErr == nil {
+				firstErr = err
+			}
+			return nil
+		}
+		wrap(a)
+		return a
+	}
+	eval := func(a *parser.ASTNode) {
+		if a == nil {
+			return
+		}
+		res, err := a.Runtime.Eval(vs, make(map[string]interface{}), tid)
+		e := "-"
+		if err != nil {
+			e = err.Error()
+		}
+		results = append(results, []interface{}{res, e})
+	}
+	for _, step := range strings.Split(map[string]string{
+		"A0": "a,l,m,1,2", "A1": "l,1,a,m,2", "A2": "l,m,1,2,a,3", "A3": "a,l,m,1,d,2,a,3", "A4": "l,m,a,1,2",
+	}[mode], ",") {
+		switch step {
+		case "a":
+			attach()
+		case "d":
+			detach()
+		case "l":
+			libAst = load("lib", lib)
+		case "m":
+			mainAst = load("main", main)
+		case "1":
+			eval(libAst)
+		case "2", "3":
+			eval(mainAst)
+		}
+	}
+	return results, firstErr
+}
+
+// c15LifePlain: the reference outcome (no debugger at all) and the visit trace of the phases
+// in which the mode has the debugger attached — recorded with a debugger that is attached
+// BEFORE any parse, so that the trace does not depend on the attach point.
+func c15LifePlain(mode, lib, main string) (string, []string, []string) {
+	lg := &memLog{}
+	erp := interpreter.NewECALRuntimeProvider("t", nil, lg)
+	defer erp.Cron.Stop()
+	vs := newGlobalScope()
+	var out string
+	func() {
+		defer func() {
+			if e := recover(); e != nil {
+				out = c15Outcome(nil, fmt.Errorf("PANIC %v", e), vs)
+			}
+		}()
+		res, err := c15Life(mode, erp, lib, main, vs, erp.NewThreadID(), func() {}, func() {}, func(*parser.ASTNode) {})
+		out = c15Outcome(res, err, vs)
+	}()
+	logs := append([]string(nil), lg.lines...)
+	erp2 := interpreter.NewECALRuntimeProvider("t", nil, &memLog{})
+	defer erp2.Cron.Stop()
+	dbg := interpreter.NewECALDebugger(newGlobalScope())
+	dbg.BreakOnError(false)
+	rec := newRecDebugger(dbg)
+	rec.off = true
+	erp2.Debugger = rec
+	tid := erp2.NewThreadID()
+	func() {
+		defer func() { recover() }()
+		c15Life(mode, erp2, lib, main, newGlobalScope(), tid, func() { rec.setOn(true) }, func() { rec.setOn(false) },
+			func(*parser.ASTNode) {})
+	}()
+	return out, logs, rec.trace(tid)
+}
+
+func c15RunL(f []string, payload string) string {
+	c := &c15Run{life: f[0], src: unhx(f[5]), mainSrc: unhx(f[6]), n: 1, bos: f[1][0] == '1', boe: f[1][1] == '1',
+		bpops: c15List(f[2], ","), script: c15List(f[3], ","), timing: "poll", seed: 1, payload: payload}
+	plain, plainLog, _ := c15LifePlain(c.life, c.src, c.mainSrc)
+	threads, lg, rec, hang := c15Debugged(c, false)
+	t := threads[0]
+	same, vis := 1, 1
+	if !hang && (!t.normal || c15Outcome(t.res, t.err, t.vs) != plain || strings.Join(plainLog, "\n") != strings.Join(lg.lines, "\n")) {
+		same = 0
+	}
+	if !hang && !rec.litAgree() {
+		vis = 0
+	}
+	r := fmt.Sprintf("same=%d vis=%d susp=%s", same, vis, c15Lines(t.susp))
+	if hang {
+		r = "HANG-suspended-thread-not-released " + r
+	}
+	CountRun("L." + c.life)
+	return r
 }
 
 func c15Lines(xs []int) string {
@@ -972,6 +1143,16 @@ func (p *c15Gen) stmt(d int) {
 // c15Program generates a terminating program: functions calling earlier functions (plus a
 // bounded recursion), loops with small constant bounds, try blocks, containers, log output.
 func c15Program(r *Rand) string {
+	lib, main := c15ProgramParts(r)
+	if lib == "" {
+		return main
+	}
+	return lib + "\n" + main
+}
+
+// c15ProgramParts returns the function definitions (the "library") and the statements using
+// them (the "main program") separately.
+func c15ProgramParts(r *Rand) (string, string) {
 	p := &c15Gen{r: r}
 	if r.Intn(2) == 0 {
 		// a function whose body is a bare return: called as `z()`, a line with one node
@@ -1006,13 +1187,15 @@ func c15Program(r *Rand) string {
 		p.vars = nil
 	}
 	p.vars = nil
+	libLines := p.lines
+	p.lines = nil
 	n := 2 + r.Intn(6)
 	for i := 0; i < n; i++ {
 		p.stmt(2)
 	}
 	vs := append([]string{"0"}, p.vars...)
 	p.emit("[" + strings.Join(vs, ", ") + "]")
-	return strings.Join(p.lines, "\n")
+	return strings.Join(libLines, "\n"), strings.Join(p.lines, "\n")
 }
 
 // c15PhantomFree: with breakOnError the code marks a thread "not running" without waiting
@@ -1208,6 +1391,63 @@ func init() {
 					g.Emit(fmt.Sprintf("D 1 00 %s %s %s 1 %s %s", d[1], d[2], timing, c15TraceStr(trace), hx(d[0])))
 				}
 			}
+			// life cycle: code loaded in steps, the debugger attached at different points; break
+			// points in code parsed before and after the attach point; sources "lib" and "main"
+			emitL := func(lib, main string, r *Rand, bpops, script string) {
+				for _, mode := range []string{"A0", "A1", "A2", "A3", "A4"} {
+					_, _, trace := c15LifePlain(mode, lib, main)
+					if len(trace) > 1200 {
+						g.Count("skipped.long-trace")
+						continue
+					}
+					bo, sc := bpops, script
+					if bo == "" {
+						var vis []int
+						seen := map[int]bool{}
+						for _, e := range trace {
+							if e[0] == 'v' {
+								l, _ := strconv.Atoi(e[1:])
+								if !seen[l] {
+									seen[l] = true
+									vis = append(vis, l)
+								}
+							}
+						}
+						var ops []string
+						for k := 0; k < 1+r.Intn(4) && len(vis) > 0; k++ {
+							l := vis[r.Intn(len(vis))]
+							ops = append(ops, "s"+strconv.Itoa(l))
+							if r.Intn(8) == 0 {
+								ops = append(ops, "d"+strconv.Itoa(l))
+							}
+						}
+						if len(ops) == 0 {
+							ops = []string{"s2001"}
+						}
+						bo = strings.Join(ops, ",")
+						sc = c15Script(r, 1, false)
+					}
+					boe := "0"
+					if r.Intn(3) == 0 && c15PhantomFree(trace) {
+						boe = "1"
+					}
+					g.Count("L." + mode)
+					g.Emit(fmt.Sprintf("L %s 0%s %s %s %s %s %s", mode, boe, bo, sc, c15TraceStr(trace), hx(lib), hx(main)))
+				}
+			}
+			emitL("func f(a) {\n    b := a + 1\n    return b * 2\n}\nlibv := 5", "x := f(1)\ny := f(x) + libv\n[x, y]", NewRand(5), "s1002,s2002", "R,R,R,R,R,R")
+			emitL("func f(a) {\n    b := a + 1\n    return b * 2\n}\nlibv := 5", "x := f(1)\ny := f(x) + libv\n[x, y]", NewRand(6), "s1003,s1005,s2001", "I,O,U,R,I,I,O,R")
+			nLife := 40
+			if g.Thorough() {
+				nLife = 600
+			}
+			for i := 0; i < nLife; i++ {
+				lib, main := c15ProgramParts(g.R)
+				if lib == "" {
+					lib = "libv := 1"
+				}
+				emitL(lib, main, g.R, "", "")
+			}
 			for i, src := range c15Corpus {
 				emitD(src, NewRand(uint64(1000+i)), true)
 			}
@@ -1222,6 +1462,8 @@ func init() {
 				return c15RunD(f[1:], payload)
 			case f[0] == "K" && len(f) == 5:
 				return c15RunK(f[1:], payload)
+			case f[0] == "L" && len(f) == 8:
+				return c15RunL(f[1:], payload)
 			}
 			return "bad-payload"
 		},
